@@ -736,6 +736,9 @@ def run_r5_graph(repo: Repo, res: Result) -> None:
         res.undecide("C02.R5", key, u, wh)
     if unknown and not n_edges:
         return
+    if not any(e.kind == "ext" for r in runs for e in r.effects):
+        res.undecide("C02.R5", key, "the construction never calls a mutator of a networkx graph object the executor recognises (nx.DiGraph())", wh)
+        return
     ok = n_edges > 0
     res.add("C02.R5", key + " [import edge exists]", ok, f"import edges are added on {n_edges} path(s)" if ok else "no path of the graph construction adds an edge for an import record", wh, nontrivial=False)
     if not ok:
